@@ -71,6 +71,8 @@ def normalise(lines: list[dict]) -> dict[int, list[dict]]:
             out.append({"ev": "finalize_begin", "n": int(e.get("n", 0)), "w": w, "test": test})
         elif ev == "finalize_end":
             out.append({"ev": "finalize_end", "n": int(e.get("n", 0)), "test": test})
+        elif ev == "abort":
+            out.append({"ev": "abort", "test": test})
         elif ev == "worker":
             out.append({"ev": "worker", "f": str(e.get("path")), "test": test})
         elif ev == "worker_done":
